@@ -208,10 +208,16 @@ const prelude = `
 (declare-fun dtype (Int) Int)
 (declare-fun i2f (Int) Flt)
 (declare-fun f2i (Flt) Int)
+(declare-const zarrS (Array Int Str))
+(declare-const zarrF (Array Int Flt))
+(declare-const zarrT (Array Int Tim))
 (define-fun godiv ((a Int) (b Int)) Int (ite (>= a 0) (div a b) (- (div (- a) b))))
 (define-fun gorem ((a Int) (b Int)) Int (- a (* b (ite (>= a 0) (div a b) (- (div (- a) b))))))
 (define-fun imax ((a Int) (b Int)) Int (ite (>= a b) a b))
 (define-fun imin ((a Int) (b Int)) Int (ite (<= a b) a b))
+(assert (forall ((i Int)) (! (= (select zarrS i) sempty) :pattern ((select zarrS i)))))
+(assert (forall ((i Int)) (! (= (select zarrF i) (i2f 0)) :pattern ((select zarrF i)))))
+(assert (forall ((i Int)) (! (= (select zarrT i) tzero) :pattern ((select zarrT i)))))
 (assert (forall ((s Str)) (! (>= (slen s) 0) :pattern ((slen s)))))
 (assert (forall ((s Str)) (! (= (= (slen s) 0) (= s sempty)) :pattern ((slen s)))))
 (assert (= (slen sempty) 0))
